@@ -421,3 +421,6 @@ def clock_rows(O):
     from . import C05, dri
     lay = C05.Layout("clock and expected", ["in", "exp"], [0, 1])
     C05.run_layout(O, lay, 7, rep=dri.Rep(FACTS, B.protocol_battery(), B.protocol_judge))
+    # a header that names only inputs while the device has an output the header does not mention
+    lay2 = C05.Layout("inputs only, one unnamed output", ["in", "in"], [0, 1], hidden_exp=1)
+    C05.run_layout(O, lay2, 13, rep=dri.Rep(FACTS, B.protocol_battery(), B.protocol_judge))
